@@ -114,7 +114,9 @@ func Acceptable(h []byte) []string {
 		}
 		return false
 	}
-	if in(FCR2) || in(FRW2) {
+	// "the more specific format wins over the generic one": a header that carries CR2's, RW2's or
+	// CRW's longer signature next to the four TIFF bytes is not plain TIFF
+	if in(FCR2) || in(FRW2) || in(FCRW) {
 		drop(FTIFF)
 	}
 	// among ftyp files the brand decides; the major brand "crx " excludes the others, while a
